@@ -59,6 +59,78 @@ func defC19(mode, unknown int, ro bool) *ph.Def {
 	}}
 }
 
+// c19Texts are the texts put, one role at a time, into a definition: names, argument names, descriptions.
+var c19Texts = []string{"x", strings.Repeat("w", 40), "é", "ñññññññ", "大きさの値", "<файл-назначения>", "año", "a\u0301", "%s%d", "x y", "tab\there", "two\nlines", "\u200b", "🙂🙂🙂", "ß"}
+
+func c19NameOK(t string) bool {
+	return t != "" && !strings.ContainsAny(t, " \t\n=") && !strings.HasPrefix(t, "-")
+}
+
+// defsC19Texts: one definition per (role, text): the text is used as command name, option name, alias, argument name,
+// description, synopsis argument or program name / description, everything else stays short ASCII.
+func defsC19Texts() []*ph.Def {
+	var out []*ph.Def
+	roles := []string{"command", "option", "alias", "argname", "desc", "synarg", "self", "all"}
+	for _, role := range roles {
+		for _, t := range c19Texts {
+			is := func(r string) bool { return role == r || role == "all" }
+			if (is("command") || is("option") || is("alias")) && !c19NameOK(t) {
+				if role != "all" {
+					continue
+				}
+			}
+			name := func(r, dflt string) string {
+				if is(r) && c19NameOK(t) {
+					return t
+				}
+				return dflt
+			}
+			text := func(r, dflt string) string {
+				if is(r) {
+					return t
+				}
+				return dflt
+			}
+			o := ph.OptDef{Name: name("option", "opt"), Kind: ph.Str, DefS: "d", ArgName: text("argname", ""), Desc: text("desc", "an option")}
+			if a := name("alias", ""); a != "" && a != o.Name {
+				o.Aliases = []string{a}
+			}
+			cmdName := name("command", "cmd")
+			if cmdName == o.Name {
+				cmdName += "c"
+			}
+			root := ph.CmdDef{Name: text("self", "prog"), Desc: text("self", "a program"),
+				Opts: []ph.OptDef{o, {Name: "flag", Kind: ph.Bool}, {Name: "req", Kind: ph.Int, Required: true, Desc: text("desc", "")}},
+				Cmds: []*ph.CmdDef{
+					{Name: cmdName, Desc: text("desc", "a command"), SynArgs: [][2]string{{text("synarg", "<f>"), text("desc", "file")}},
+						Opts: []ph.OptDef{{Name: "co", Kind: ph.StrS, Min: 1, Max: 2, ArgName: text("argname", ""), Desc: text("desc", "")}},
+						Cmds: []*ph.CmdDef{{Name: "sub", Desc: text("desc", "")}}},
+					{Name: "zz"},
+				}}
+			if is("synarg") {
+				root.SynArgs = [][2]string{{t, "d"}, {"<x>", t}}
+			}
+			for mode := 0; mode < 3; mode++ {
+				out = append(out, &ph.Def{Mode: mode, Unknown: 2, Help: "help", Root: root})
+			}
+		}
+	}
+	return out
+}
+
+// c19DefCases: the command lines and completion lines tried on every definition of the family.
+func c19DefCases(def *ph.Def) (argvs [][]string, lines []string) {
+	cmd := def.Root.Cmds[0].Name
+	on := def.Root.Opts[0].Name
+	argvs = [][]string{{}, {"--help"}, {"help"}, {"help", cmd}, {cmd}, {cmd, "--help"}, {cmd, "help"}, {cmd, "help", "sub"}, {cmd, "sub", "--help"}, {"--req=1"}, {"--req=1", cmd}, {"--" + on + "=v", "--req", "1", cmd, "sub"}, {"--" + on}, {"-" + on, "v"}, {"zz", "help"}, {"help", "nosuch"}}
+	if len(def.Root.Opts[0].Aliases) > 0 {
+		argvs = append(argvs, []string{"-" + def.Root.Opts[0].Aliases[0], "v", "--req=1"})
+	}
+	r := []rune(cmd)
+	lines = []string{"prog ", "prog -", "prog --", "prog " + string(r[:1]), "prog " + cmd + " ", "prog " + cmd + " -", "prog --" + on + "=", "prog help ", "prog --" + string([]rune(on)[:1])}
+	return
+}
+
 type c19Result struct {
 	msgs []string
 }
@@ -120,6 +192,21 @@ func c19Complete(def *ph.Def, line string, zsh bool, args []string) []string {
 
 func judgeC19(pc *parserCase, verbose bool) []string {
 	if pc.Extra != nil {
+		if path, ok := pc.Extra["help_path"].(string); ok {
+			var pn string
+			func() {
+				defer func() {
+					if r := recover(); r != nil {
+						pn = fmt.Sprint(r)
+					}
+				}()
+				fmt.Println(ph.HelpOf(pc.Def, nil, path))
+			}()
+			if pn != "" {
+				return []string{"Help() panics: " + firstLine(pn)}
+			}
+			return nil
+		}
 		if line, ok := pc.Extra["comp_line"].(string); ok {
 			zsh, _ := pc.Extra["zsh"].(bool)
 			return c19Complete(pc.Def, line, zsh, pc.Argv)
@@ -137,7 +224,7 @@ func init() {
 		ID:        "C19",
 		QuickSecs: 150, ThoroSecs: 1500,
 		Rule: "input-space exploration at byte level: tokens = all byte strings of length <= 3 over 13 bytes {- = a b . 1 space newline : / 0xC3 0xA9 0xFF} (2380) plus 60 special tokens (10^4-byte and deeply bundled tokens, int ranges with spans <= 10^4 including ranges ending at the int64 limits, numeric limits, format verbs, NUL); " +
-			"every single token x 18 configurations, every pair over a subset of Np tokens, every triple over Nt tokens, the same strings as COMP_LINE (bash and zsh, both argument conventions) and as environment values of bound options; Parse, Dispatch and Help run under recover with a budget of 10^6 loop iterations per call (instrumented loops); " +
+			"every single token x 18 configurations, every pair over a subset of Np tokens, every triple over Nt tokens, the same strings as COMP_LINE (bash and zsh, both argument conventions) and as environment values of bound options; a family of definitions in which each of 15 texts (long, multibyte, combining, wide, format verbs, blanks, newline) takes each role (command name, option name, alias, argument name, description, synopsis argument, program name) x 3 modes, each with 17 command lines, 9 completion lines and Help() of every level; Parse, Dispatch and Help run under recover with a budget of 10^6 loop iterations per call (instrumented loops); " +
 			"oracle: no panic, budget never exhausted, a failed Parse returns nil remaining and a non-nil error, completion leaves through the exit path; distinct_nontrivial = distinct inputs executed",
 		Assume: []string{"tokens outside the byte alphabet and longer sequences are not covered", "a hang is detected as exhaustion of the loop-iteration budget, not by wall-clock"},
 		Run: func(c *RunCtx) {
@@ -226,6 +313,11 @@ func init() {
 			for d := 0; d < 3; d++ {
 				units = append(units, unit{"comp", d, 0}, unit{"env", d, 0})
 			}
+			tdefs := defsC19Texts()
+			res.Bounds["definitions_with_text_roles"] = len(tdefs)
+			for d := range tdefs {
+				units = append(units, unit{"textdef", d, 0})
+			}
 			for {
 				u := c.claim()
 				if u >= len(units) || len(res.Violations) >= 3 {
@@ -236,6 +328,39 @@ func init() {
 					break
 				}
 				un := units[u]
+				if un.kind == "textdef" {
+					def := tdefs[un.def]
+					argvs, lines := c19DefCases(def)
+					for _, argv := range argvs {
+						one("definition_text_cases", def, nil, argv)
+					}
+					for _, l := range lines {
+						for _, zsh := range []bool{false, true} {
+							comp(def, l, zsh, []string{})
+						}
+					}
+					// help of every level, rendered on the level's own object
+					for _, path := range c18Paths(def) {
+						res.Evaluations++
+						res.Traces++
+						res.count("definition_text_cases", 1)
+						var pn string
+						func() {
+							defer func() {
+								if r := recover(); r != nil {
+									pn = fmt.Sprint(r)
+								}
+							}()
+							ph.HelpOf(def, nil, path)
+						}()
+						if pn != "" {
+							pc := parserCase{Check: "C19", Def: def, Extra: map[string]any{"help_path": path}}
+							raw, _ := jsonMarshal(pc)
+							res.violate(Violation{Prop: "C19", Msg: fmt.Sprintf("Help() of level %q panics: %s  [definition with text %q]", "/"+path, firstLine(pn), def.Root.Cmds[0].Desc), Case: raw, Weight: 10})
+						}
+					}
+					continue
+				}
 				def := defs[un.def]
 				switch un.kind {
 				case "single":
@@ -279,7 +404,7 @@ func init() {
 			res.Distinct = res.Evaluations
 		},
 		Replay:     replayParser,
-		GateCounts: []string{"single_token_cases", "token_pair_cases", "token_triple_cases", "comp_line_texts", "environment_value_cases"},
+		GateCounts: []string{"single_token_cases", "token_pair_cases", "token_triple_cases", "comp_line_texts", "environment_value_cases", "definition_text_cases"},
 	})
 }
 
